@@ -200,6 +200,10 @@ static void planLoad(void)
 			}
 			else P.wash = 0;
 		}
+		else if (!strcmp(w[0], "fill")) {	/* fill bytes only; washing itself left to the world */
+			stoVerifNewFill  = (unsigned char) strtoul(w[1], 0, 16);
+			stoVerifFreeFill = (unsigned char) strtoul(w[2], 0, 16);
+		}
 		else if (!strcmp(w[0], "gc")) {
 			if (!strcmp(w[1], "at")) {
 				if (P.nGcAt >= MAXGCAT) simDie("plan: too many gc at");
